@@ -38,20 +38,19 @@ Print Assumptions C13_new_values_fresh.
 
 (* ---- the property, as far as it holds *)
 
-(* Every script (any finite effect sequence) with any of the four endings: the process survives
-   and the listed state - every effectively substituted attribute, cwd, sys.path, sys.meta_path,
-   sys.modules - is what it was, PROVIDED: no substituted attribute is None; the script does not
-   end with an attribute deleted that the analyser had to create; the host's os.chdir/os._exit
-   are not aliased under another modelled attribute; the hook object is new; the script does not
-   insert into sys.path; host modules are plain, fake names unused, the script's module
-   operations stay off host modules; os.path.abspath still works when the script ends.
-   Missing for the full statement: exactly these guards (see the _refuted theorems). *)
+(* Every script (any finite effect sequence: attribute writes/deletes/copies, in-place edits, os.chdir,
+   module insertions, sys.path inserts) with any of the four endings: the process survives and the
+   listed state - every effectively substituted attribute, cwd, sys.path, sys.meta_path,
+   sys.modules - is what it was.  No condition on the values (None included), none on what the
+   script deletes or inserts into sys.path.  Guards left: the host's os.chdir/os._exit are not
+   aliased under another modelled attribute; the hook object is new; host modules are plain, fake
+   names unused, the script's module operations stay off host modules; os.path.abspath still works
+   when the script ends (see the remaining _refuted theorems). *)
 Theorem C13_setup_py_partial : forall root hook cy p s,
   let e := mk_env root hook cy false s in
   let sp := pre_exit_state e p s in
-  no_patched_attr_is_None s -> created_attrs_still_present s sp ->
   host_function_unaliased k_chdir s -> host_function_unaliased k_exit s ->
-  mem_n hook (meta s) = false -> no_path_ins (fst p) ->
+  mem_n hook (meta s) = false ->
   (cy = true -> get k_cythonize s <> None) ->
   forallb (fun m => is_plain (snd m)) (mods s) = true ->
   (forall n, In n fake_names -> mmem n (mods s) = false) ->
@@ -61,14 +60,32 @@ Theorem C13_setup_py_partial : forall root hook cy p s,
 Proof. exact setup_py_partial. Qed.
 Print Assumptions C13_setup_py_partial.
 
-(* For ALL scripts and all four endings, with no condition on the script: when every substituted
-   attribute exists and is not None, every one of them is the original again. *)
+(* For ALL scripts, all four endings and ANY state (attributes that are None, attributes the script
+   deletes, sys.path inserts): every effectively substituted attribute is the original again and
+   sys.path has its old content.  Replaces C13_patch_none_refuted, C13_delete_created_attr_refuted
+   and C13_sys_path_refuted. *)
 Theorem C13_setup_py_all_programs_partial : forall root hook cy s,
-  no_patched_attr_is_None s -> all_patched_attrs_present s -> host_function_unaliased k_exit s ->
+  host_function_unaliased k_exit s ->
   forall p, exists s', analyse root hook cy false p s = Alive s' /\
-    (forall q, In q all_patched -> target_ok q s = true -> get (pkey q) s' = get (pkey q) s).
+    (forall q, In q all_patched -> target_ok q s = true -> get (pkey q) s' = get (pkey q) s) /\
+    path s' = path s.
 Proof. exact setup_py_all_programs_attrs. Qed.
 Print Assumptions C13_setup_py_all_programs_partial.
+
+(* logging.captureWarnings: switched off again when this analysis switched it on, left on when it
+   was on before - every script that leaves the two attributes alone, every ending.
+   Replaces C13_capture_warnings_refuted. *)
+Theorem C13_capture_warnings_undone : forall root hook cy p s v w,
+  host_function_unaliased k_exit s ->
+  (cy = true -> get k_cythonize s <> None) ->
+  forallb (fun o => negb (touches k_showwarning o)) (fst p) = true ->
+  forallb (fun o => negb (touches k_saved_showwarning o)) (fst p) = true ->
+  get k_showwarning s = Some v -> v <> VNone -> v <> v_logging_showwarning ->
+  get k_saved_showwarning s = Some w ->
+  exists s', analyse root hook cy false p s = Alive s' /\
+    get k_showwarning s' = get k_showwarning s /\ get k_saved_showwarning s' = get k_saved_showwarning s.
+Proof. exact capture_warnings_undone. Qed.
+Print Assumptions C13_capture_warnings_undone.
 
 (* os._exit never terminates the caller, and the real working directory never moves: every
    script, every ending, early returns included *)
@@ -79,18 +96,14 @@ Proof. exact survives_and_cwd. Qed.
 Print Assumptions C13_process_survives_os_exit.
 
 Theorem C13_early_return_restores : forall root hook cy p s,
-  no_patched_attr_is_None s ->
   exists s', analyse root hook cy true p s = Alive s' /\ (forall k, get k s' = get k s) /\ rest s' = rest s.
 Proof. exact early_return_restores. Qed.
 Print Assumptions C13_early_return_restores.
 
-Theorem C13_pyproject_partial : forall src p s sp,
-  (forall q, In q pyproject_patched -> get (pkey q) s <> Some VNone) ->
+(* PEP 517 path, every backend that leaves os.chdir alone and does not call os._exit, ANY state *)
+Theorem C13_pyproject_partial : forall src p s,
   forallb (fun o => negb (touches k_chdir o)) (fst p) = true ->
   snd p <> OsExit ->
-  sp = fold_left (py_step (mk_env src 0 false false s))
-         (fst p) (fst (patch_enter pyproject_patched pyproject_base (do_chdir None (get k_chdir s) src s))) ->
-  (forall q, In q pyproject_patched -> get (pkey q) s = None -> get (pkey q) sp <> None) ->
   exists s', analyse_pyproject src p s = Alive s' /\
     (forall q, In q pyproject_patched -> target_ok q s = true -> get (pkey q) s' = get (pkey q) s) /\
     cwd s' = cwd s.
@@ -102,13 +115,9 @@ Print Assumptions C13_pyproject_partial.
    this replaces the former C13_pyproject_argv_refuted *)
 Theorem C13_pyproject_argv_restored :
   pyproject_argv_patched_b = true /\
-  forall src p s sp,
-  (forall q, In q pyproject_patched -> get (pkey q) s <> Some VNone) ->
+  forall src p s,
   forallb (fun o => negb (touches k_chdir o)) (fst p) = true ->
   snd p <> OsExit ->
-  sp = fold_left (py_step (mk_env src 0 false false s))
-         (fst p) (fst (patch_enter pyproject_patched pyproject_base (do_chdir None (get k_chdir s) src s))) ->
-  (forall q, In q pyproject_patched -> get (pkey q) s = None -> get (pkey q) sp <> None) ->
   exists s', analyse_pyproject src p s = Alive s' /\ get ("sys", "argv") s' = get ("sys", "argv") s.
 Proof. exact (conj pyproject_argv_patched pyproject_argv_restored). Qed.
 Print Assumptions C13_pyproject_argv_restored.
@@ -138,42 +147,18 @@ Print Assumptions C13_project_files_untouched_partial.
 
 (* ---- what is false of the unchanged code (witnesses replayed on /repo by the harness) *)
 
-Theorem C13_patch_none_refuted :
-  exists s s', get ("sys", "stdin") s = Some VNone /\
-    analyse ex_root ex_hook false false ([], Finish) s = Alive s' /\ get ("sys", "stdin") s' = None.
-Proof. exact patch_none_refuted. Qed.
-Print Assumptions C13_patch_none_refuted.
-
-Theorem C13_delete_created_attr_refuted :
-  (exists p s', no_patched_attr_is_None ex_state /\
-    analyse ex_root ex_hook false false p ex_state = Alive s' /\
-    get k_chdir s' <> get k_chdir ex_state /\ get ("os", "getcwd") s' <> get ("os", "getcwd") ex_state)
-  /\ ~ C13_full_statement.
-Proof. exact (conj delete_created_attr_refuted full_statement_refuted). Qed.
-Print Assumptions C13_delete_created_attr_refuted.
-
 Theorem C13_threads_refuted :
   get k_chdir (interleaved_outer ex_state) <> get k_chdir ex_state /\
   get k_chdir (interleaved_outer ex_state) = fake_of outer_patched outer_base k_chdir.
 Proof. exact threads_refuted. Qed.
 Print Assumptions C13_threads_refuted.
 
-Theorem C13_sys_path_refuted :
-  exists p s', analyse ex_root ex_hook false false p ex_state = Alive s' /\ path s' <> path ex_state.
-Proof. exact sys_path_refuted. Qed.
-Print Assumptions C13_sys_path_refuted.
-
 Theorem C13_host_module_purged_refuted :
-  exists s s', mmem "hostmod" (mods s) = true /\
-    analyse ex_root ex_hook false false ([], Finish) s = Alive s' /\ mmem "hostmod" (mods s') = false.
-Proof. exact host_module_purged_refuted. Qed.
+  (exists s s', mmem "hostmod" (mods s) = true /\
+    analyse ex_root ex_hook false false ([], Finish) s = Alive s' /\ mmem "hostmod" (mods s') = false)
+  /\ ~ C13_full_statement.
+Proof. exact (conj host_module_purged_refuted full_statement_refuted). Qed.
 Print Assumptions C13_host_module_purged_refuted.
-
-Theorem C13_capture_warnings_refuted :
-  exists s', analyse ex_root ex_hook false false ([], Finish) ex_state = Alive s' /\
-    get k_showwarning s' <> get k_showwarning ex_state.
-Proof. exact capture_warnings_refuted. Qed.
-Print Assumptions C13_capture_warnings_refuted.
 
 Theorem C13_real_fs_ops_refuted : exists ops tree, run_fops ops tree <> tree.
 Proof. exact real_fs_ops_refuted. Qed.
